@@ -23,6 +23,7 @@ use crate::{
         time::{DurationKind, Time},
     },
     runtime::{Clock, DdsRuntime},
+    transport::types::TopicKind,
     xtypes::dynamic_type::DynamicData,
 };
 
@@ -270,6 +271,17 @@ impl DcpsDomainParticipant {
 
         if !data_writer.enabled {
             return Err(DdsError::NotEnabled);
+        }
+
+        // Like register/unregister/dispose: there are no instances to look up on a keyless topic
+        if self
+            .domain_participant
+            .locally_created_topic_list
+            .iter()
+            .find(|x| x.topic_name == data_writer.topic_name)
+            .is_some_and(|topic| TopicKind::from(&topic.type_support) == TopicKind::NoKey)
+        {
+            return Err(DdsError::IllegalOperation);
         }
 
         let mut member_list = Vec::new();
